@@ -9,6 +9,7 @@ package rfc4757
 //@   requires tagof(e) == typeid("crypto.RC4HMAC")
 //@   ensures err == nil <==> et_encok(tagof(e), len(key), len(data))
 //@   ensures err == nil ==> len(ct) == len(data)
+//@   ensures err == nil ==> bytes(ct) == rc4stream(bytes(key), bytes(data))
 //@   ensures err != nil ==> len(ct) == 0
 //@ func crypto/rfc4757.DecryptData(key, data, e) (pt, err)
 //@   pure
@@ -16,20 +17,33 @@ package rfc4757
 //@   requires tagof(e) == typeid("crypto.RC4HMAC")
 //@   ensures err == nil <==> et_decok(tagof(e), len(key), len(data))
 //@   ensures err == nil ==> len(pt) == len(data)
+//@   ensures err == nil ==> bytes(pt) == rc4stream(bytes(key), bytes(data))
 //@   ensures err != nil ==> len(pt) == 0
+// RFC 4757 5 (properties C05, C06): K2 = HMAC-MD5(key, msusage); the message is chk | RC4(K3, conf | data) with
+// chk = HMAC-MD5(K2, conf | data) and K3 = HMAC-MD5(K2, chk). Decryption accepts only if the leading 16 octets are
+// HMAC-MD5(K2, decrypted body).
+//@ define rc4_k2(key, usage) := hmac(fid.crypto.md5.New, key, seqle32(ms_usage(usage)))
+//@ define rc4_body(key, usage, c) := rc4stream(hmac(fid.crypto.md5.New, rc4_k2(key, usage), seqtrunc(c, 16)), seqsub(c, 16, len(c)))
 //@ func crypto/rfc4757.DecryptMessage(key, data, usage, export, e) (pt, err)
 //@   pure
 //@   trusted_frame returned slices are not tracked as fresh; in-place append into spare capacity cannot be excluded
 //@   requires tagof(e) == typeid("crypto.RC4HMAC")
 //@   ensures err != nil ==> len(pt) == 0
+//@   ensures err == nil ==> len(data) >= 24 && seqtrunc(bytes(data), 16) == hmac(fid.crypto.md5.New, rc4_k2(bytes(key), usage), rc4_body(bytes(key), usage, bytes(data)))
+//@   ensures err == nil ==> bytes(pt) == seqsub(rc4_body(bytes(key), usage, bytes(data)), 8, len(data) - 16)
 //@ func crypto/rfc4757.EncryptMessage(key, data, usage, export, e) (ct, err)
 //@   pure
 //@   trusted_frame returned slices are not tracked as fresh; in-place append into spare capacity cannot be excluded
 //@   requires tagof(e) == typeid("crypto.RC4HMAC")
+//@   ensures err == nil ==> len(lastRandom) == 8 && bytes(ct) == enc_4757(bytes(key), usage, seqcat(lastRandom, bytes(data)))
+//@ func crypto/rfc4757.deriveKeys(key, checksum, usage, export) (k1, k2, k3)
+//@   pure
+//@   trusted_frame returned slices are not tracked as fresh
+//@   ensures k1 == key && bytes(k2) == rc4_k2(bytes(key), usage) && bytes(k3) == hmac(fid.crypto.md5.New, rc4_k2(bytes(key), usage), bytes(checksum))
 //@ func crypto/rfc4757.HMAC(key, data) (r)
 //@   pure
 //@   trusted_frame returned slices are not tracked as fresh; in-place append into spare capacity cannot be excluded
-//@   ensures len(r) == 16
+//@   ensures len(r) == 16 && fresh(r) && cap(r) == 16
 //@   ensures bytes(r) == hmac(fid.crypto.md5.New, bytes(key), bytes(data))
 //@ func crypto/rfc4757.UsageToMSMsgType(usage) (r)
 //@   pure
@@ -43,7 +57,9 @@ package rfc4757
 //@   ensures err == nil ==> bytes(r) == rc4_cksum(bytes(key), usage, bytes(data))
 //@ func crypto/rfc4757.VerifyIntegrity(key, pt, data, e) (ok)
 //@   pure
+//@   requires tagof(e) == typeid("crypto.RC4HMAC")
 //@   trusted_frame returned slices are not tracked as fresh; in-place append into spare capacity cannot be excluded
+//@   ensures ok ==> len(data) >= 16 && seqtrunc(bytes(data), 16) == hmac(fid.crypto.md5.New, bytes(key), bytes(pt))
 
 // RFC 4757 2 (property C08): the key is the MD4 digest of the UTF-16LE encoding of the password.
 //@ func crypto/rfc4757.StringToKey(secret) (r, err)
